@@ -47,6 +47,12 @@ import re as _re
 _NOTHING_FOUND = _re.compile(r"^\s*(|\[\]|\{\}|\(\)|None|set\(\)|\[\] \[\]|\[\] \{\}|\{\} \[\])\s*$|\bnot found\b|^0 [a-z]|\bcalls \[\]|\bdispatched \[\]|: \[\]$|^products \[\]")
 
 
+def _algebra_rules():
+    from .evidence_rules import ALGEBRA_RULES
+
+    return ALGEBRA_RULES
+
+
 _HELPER_CALL = _re.compile(r"(?<![\w.])(?:self\.)?_[a-z]\w*\(")
 
 
@@ -91,7 +97,7 @@ class Ctx:
             # the extractor found nothing to judge (empty list / "not found"): the construct has no recognised shape any more
             o.unrecognised = True
             o.msg = (o.msg + " [nothing extracted: the construct is not in a recognised shape]").strip()
-        if not ok and evidence and not explicit and not o.unrecognised and _HELPER_CALL.search(msg or ""):
+        if not ok and evidence and not explicit and not o.unrecognised and rule.split("/")[-1] in _algebra_rules() and _HELPER_CALL.search(msg or ""):
             # a value rule whose extracted value still contains a call of a private helper: the rule did not see what the helper computes
             o.unrecognised = True
             o.msg = (o.msg + " [the extracted value goes through a private helper the rule did not follow: nothing to judge]").strip()
